@@ -374,9 +374,20 @@ void fcppt::container::tree::object<T>::swap(object &_other)
 
   swap(this->value_, _other.value_);
 
-  std::swap(this->parent_, _other.parent_);
-
+  // Both nodes stay where they are (in their parents' child lists), so their
+  // own parent links must not change; the exchanged children, however, have
+  // to refer to their new parents.
   this->children_.swap(_other.children_);
+
+  for (auto &child : this->children_)
+  {
+    child.parent_ = this;
+  }
+
+  for (auto &child : _other.children_)
+  {
+    child.parent_ = &_other;
+  }
 }
 
 template <typename T>
